@@ -149,6 +149,9 @@ type Client struct {
 	// conn is the open connection
 	conn *uacp.Conn
 
+	// connMux guards conn which is replaced by the reconnect monitor
+	connMux sync.Mutex
+
 	// sechan is the open secure channel.
 	atomicSechan atomic.Value // *uasc.SecureChannel
 	sechanErr    chan error
@@ -411,7 +414,9 @@ func (c *Client) monitor(ctx context.Context) {
 						// todo(fs): down.
 						//
 						// https://github.com/gopcua/opcua/pull/470
-						c.conn.Close()
+						if conn := c.getConn(); conn != nil {
+							conn.Close()
+						}
 						if sc := c.SecureChannel(); sc != nil {
 							sc.Close()
 							c.setSecureChannel(nil)
@@ -641,25 +646,37 @@ func (c *Client) Dial(ctx context.Context) error {
 		return errors.Errorf("secure channel already connected")
 	}
 
-	var err error
-	c.conn, err = c.cfg.dialer.Dial(ctx, c.endpointURL)
+	conn, err := c.cfg.dialer.Dial(ctx, c.endpointURL)
+	c.setConn(conn)
 	if err != nil {
 		return err
 	}
 
-	sc, err := uasc.NewSecureChannel(c.endpointURL, c.conn, c.cfg.sechan, c.sechanErr)
+	sc, err := uasc.NewSecureChannel(c.endpointURL, conn, c.cfg.sechan, c.sechanErr)
 	if err != nil {
-		c.conn.Close()
+		conn.Close()
 		return err
 	}
 
 	if err := sc.Open(ctx); err != nil {
-		c.conn.Close()
+		conn.Close()
 		return err
 	}
 	c.setSecureChannel(sc)
 
 	return nil
+}
+
+func (c *Client) setConn(conn *uacp.Conn) {
+	c.connMux.Lock()
+	c.conn = conn
+	c.connMux.Unlock()
+}
+
+func (c *Client) getConn() *uacp.Conn {
+	c.connMux.Lock()
+	defer c.connMux.Unlock()
+	return c.conn
 }
 
 // Close closes the session and the secure channel.
@@ -689,8 +706,8 @@ func (c *Client) Close(ctx context.Context) error {
 
 	// close the connection but ignore the error since there isn't
 	// anything we can do about it anyway
-	if c.conn != nil {
-		c.conn.Close()
+	if conn := c.getConn(); conn != nil {
+		conn.Close()
 	}
 
 	return nil
